@@ -129,6 +129,7 @@ type side struct {
 }
 
 type observation struct {
+	msgs  []string   // the message text of every validation and execution error that names at most one node
 	verrs [][][2]int // per validation error its locations
 	data  *jv        // nil when the response has no data member
 	errs  []sexp.Node
@@ -179,6 +180,9 @@ func (o *observation) readResponse(b []byte) {
 				}
 			}
 			o.errs = append(o.errs, sexp.T("err", sexp.T("path", path...), locsSexp(errLocs(e))))
+			if len(errLocs(e)) < 2 { // which of several merge conflicts is reported depends on Go map order
+				o.msgs = append(o.msgs, e.str("message"))
+			}
 		}
 		sort.Slice(o.errs, func(i, j int) bool { return o.errs[i].String() < o.errs[j].String() })
 	}
@@ -195,6 +199,9 @@ func (s *side) run(query string, vars map[string]interface{}) *observation {
 	_, verrs := graphql.ParseAndValidate(query, s.schema, s.features)
 	for _, e := range verrs {
 		o.verrs = append(o.verrs, locsOf(e.Locations))
+		if len(e.Locations) < 2 {
+			o.msgs = append(o.msgs, "validation: "+e.Message)
+		}
 	}
 	s.log.take()
 	resp := graphql.Execute(&graphql.Request{Context: context.Background(), Query: query, Schema: s.schema, Features: s.features, VariableValues: vars})
@@ -243,8 +250,17 @@ func (o *observation) response(sortLists, omitData bool) sexp.Node {
 	return sexp.T("resp", sexp.T("data", d), sexp.T("errors", o.errs...))
 }
 
+// the message texts, sorted: an observable of the DIFFERENTIAL clause only (side a against side b,
+// byte for byte); the model does not predict them, so a rewording that applies to both sides alike
+// stays silent
+func (o *observation) messages() sexp.Node {
+	ms := append([]string(nil), o.msgs...)
+	sort.Strings(ms)
+	return sexp.T("messages", strs(ms)...)
+}
+
 func (o *observation) sexp(sortLists, omitData bool) sexp.Node {
-	return sexp.T("obs", sexp.T("verdict", o.verdict()), o.response(sortLists, omitData), sexp.T("calls", strs(o.calls)...))
+	return sexp.T("obs", sexp.T("verdict", o.verdict()), o.response(sortLists, omitData), sexp.T("calls", strs(o.calls)...), o.messages())
 }
 
 // error lines of the validation verdict (chains put every node on its own line)
